@@ -46,6 +46,11 @@ func CheckSign(
 		return &types.Address{}, "", err
 	}
 
+	if acl.GetAccount().GetBlackListed() {
+		errMsg := fmt.Sprintf("address %s is blacklisted", (*types.Address)(acl.GetAddress().GetAddress()).String())
+		return &types.Address{}, "", errors.New(errMsg)
+	}
+
 	if acl.GetAccount().GetGrayListed() {
 		errMsg := fmt.Sprintf("address %s is graylisted", (*types.Address)(acl.GetAddress().GetAddress()).String())
 		return &types.Address{}, "", errors.New(errMsg)
